@@ -4,6 +4,7 @@ import (
 	"context"
 	"errors"
 	"fmt"
+	"math/rand/v2"
 	"regexp"
 	"sort"
 	"strconv"
@@ -600,7 +601,7 @@ func (w *World) probeUntilUsable() (dead []string, detail map[string]string) {
 			return dead, detail
 		}
 		// wait a growing while before the next round (back-off timers may be pending)
-		w.tick(time.Duration(round) * 2 * time.Second)
+		w.grace(fmt.Sprintf("wait%d", round), false, time.Duration(round)*2*time.Second, 20000, nil)
 	}
 }
 
@@ -699,6 +700,25 @@ func genC10(g *gen) {
 }
 
 func afterC10(w *World) {
+	// (ii) no back-off wait, placed deliberately: crash a server, let the client notice for a
+	// while (its receiver ends up sleeping in a back-off), restart the server and probe at once
+	r := rand.New(rand.NewPCG(w.Cfg.Seed, 0x5eed0c10))
+	for k := 0; k < 2 && w.Cfg.NServers > 0; k++ {
+		s := w.servers[r.IntN(w.Cfg.NServers)]
+		if s.Up {
+			w.crashServer(s)
+			w.faultsInc("crash")
+		}
+		down := time.Duration(1+r.IntN(3000)) * time.Millisecond
+		w.grace("down", false, down, 4000, nil)
+		w.startServer(s)
+		w.faultsInc("restart")
+		for _, m := range w.mgrs {
+			if m.ready && !m.closed {
+				w.noBackoffProbe(m, s.Idx)
+			}
+		}
+	}
 	// make sure every server is (back) up, then settle
 	for _, s := range w.servers {
 		if !s.Up {
